@@ -24,10 +24,8 @@ func runC16(c *Ctx) {
 	cons := p.Fn("rt.CSVConsumer")
 	prod := p.Fn("rt.CSVProducer")
 	pick := func(outer *ssa.Function) *ssa.Function {
-		for _, a := range outer.AnonFuncs {
-			if a.Signature.Params().Len() == 2 && a.Signature.Results().Len() == 1 {
-				return a
-			}
+		if f := codecFuncOf(outer, 2, 1); f != nil {
+			return f
 		}
 		fatalf("anchor: %s has no codec closure", outer)
 		return nil
